@@ -18,7 +18,7 @@ EXPLANATION = (
     "dispatch on responses[index]: a string is sent once; a function/method is called with locals(), a string result "
     "is sent, a true result stops, anything else raises TypeError; (D4) close() precedes reading exitstatus; (D5) "
     "'only consumed text is accumulated': a piece appended on a path that continues looping must have been consumed "
-    "from the pending text -- violated today for a TIMEOUT event (open known finding); (D6) constructor arguments are forwarded; (D7) an iteration whose outcome was EOF is the last one (expect() keeps answering EOF, so an EOF event must not go round the loop again). NOT decided: real dialogues, "
+    "from the pending text -- violated today for a TIMEOUT event (open known finding); (D6) constructor arguments are forwarded; (D7, by evaluating every test of the loop under the three outcomes of expect(): matched text / EOF / TIMEOUT in child.after) an answered TIMEOUT event does not end the run, and an iteration whose outcome was EOF is the last one (expect() keeps answering EOF, so an EOF event must not go round the loop again). NOT decided: real dialogues, "
     "timing, exit codes.")
 TRUSTED = ["expect() semantics as decided by C01/C04 (a TIMEOUT outcome consumes nothing)", "sa/ engine"]
 ASSUMPTIONS = []
